@@ -106,6 +106,37 @@ def rule_r2(chk, facts, u, P):
     chk.ob('C20-R2', 'as.c:INCLUDE_Processor:physical-lines', ok, inc.loc(),
            'line counter advanced by the number of physical lines ReadLnCont() consumed' if ok else
            'the file line counter is not advanced by ReadLnCont()\'s line count: continuation lines shift every later position')
+    # ReadLnCont: the count it returns is advanced once per physical line, whether or not the line is terminated
+    rl = facts.func('strutil.c', 'ReadLnCont')
+    rv = None
+    for b, i, ln, n in rl.nodes():
+        if n[0] == 'ret' and n[1] is not None and strip(n[1])[0] == 'l':
+            rv = strip(n[1])
+    if rv is None:
+        raise AnalysisBroken('ReadLnCont does not return a local counter')
+
+    def incr(ex):
+        return any((is_incdec(m) or (is_assign(m) and m[1] == '+=')) and strip(m[2]) == rv for m in walk_own(ex))
+    tests = []
+    for bid, bl in rl.blocks.items():
+        c = bl.get('cond')
+        if c is not None and len(bl['succ']) == 2 and any(const_val(m) == 92 for m in walk(c) if m[0] in ('c', 'cast')):
+            tests.append(bid)
+    if not tests:
+        raise AnalysisBroken('continuation test of ReadLnCont not found')
+    for bid in tests:
+        bl = rl.blocks[bid]
+        idx = len(bl['elems']) - 1
+        ok1, w1 = rl.guarded(bid, idx, lambda l: False, incr)
+        ok2, w2 = True, []
+        t = bl['succ'][0]
+        if t is not None and t >= 0:
+            ok2, w2 = rl.guarded(bid, idx, lambda l: False, incr, start=t)
+        ok = ok1 and ok2
+        chk.ob('C20-R2', 'strutil.c:ReadLnCont:count-per-physical-line', ok, rl.loc(),
+               'the returned line count is advanced before every continuation test' if ok else
+               'a physical line can be consumed (%s) without advancing the returned line count %s: every later position in '
+               'the file is reported one line early; path %s' % ('first line' if not ok1 else 'continued line', rv[1], ' '.join((w1 or w2)[-6:])))
 
 
 def rule_r3(chk, facts):
